@@ -125,7 +125,7 @@ def check_init_params(fn):
         raise TranslationError('_initialize_fit_parameters: direction computed before the fit-time metric override')
 
 
-FIT_SKELETON = ['solve', 'validate', 'update?', 'earlystop?', 'fitM', 'delw']
+FIT_SKELETON = ['timecheck', 'solve', 'validate', 'update?', 'earlystop?', 'fitM', 'delw']
 
 
 def translate_fit(fn):
@@ -170,8 +170,13 @@ def translate_fit(fn):
             ev.append('fitM')
         elif u == 'del self.weights':
             ev.append('delw')
-        elif u.startswith('if self.verbose') or u.startswith('if callback is not None') or u == 'start = time.time()' or u.startswith('if return_Ms') \
-                or u.startswith('if i > 0 and self.time_limit_s is not None'):
+        elif isinstance(st, ast.If) and ast.unparse(st.test).startswith('i > 0 and self.time_limit_s is not None'):
+            # the wall-clock test (SelectT.loop_t): first thing in the round, needs i > 0, a plain `break` (early_stopped is NOT set: the final solve still happens)
+            want_t = 'i > 0 and self.time_limit_s is not None and ((i + 1) / i * (time.time() - start_time) > self.time_limit_s)'
+            if ast.unparse(st.test) != want_t or st.orelse or [ast.unparse(x) for x in st.body] != ['break']:
+                raise TranslationError(f'fit: the time-limit test is not `if {want_t}: break`: {u[:200]}')
+            ev.append('timecheck')
+        elif u.startswith('if self.verbose') or u.startswith('if callback is not None') or u == 'start = time.time()' or u.startswith('if return_Ms'):
             continue
         else:
             raise TranslationError(f'fit: unrecognised statement in the main loop: {u[:120]}')
